@@ -108,16 +108,28 @@ def ext_letters(role, first_headers):
         'Ulen8': enc(0x0e, 2) + enc(2, 8) + b'ab', 'D64': fr(0, pat[:64]), 'D16384': fr(0, pat[:16384]), 'Dlen4': enc(0, 1) + enc(3, 4) + b'xyz',
         'SEv': fr(4, b'\x01\x05\x06\x40\x40'), 'SEbad': fr(4, b'\x02\x00'), 'SEcut': fr(4, b'\x01'), 'GAbad': fr(7, b'\x04\x00'),
         'CPshort': fr(3, b''), 'PPshort': fr(5, b''),
+        'SE6': fr(4, b'\x06\x40\x40'), 'SE6b': fr(4, b'\x06\x00\x01\x40\x40\x07\x00\x08\x01\x33\x01'),
+        'CPbig': fr(3, enc(2 ** 40 + 5, 8)), 'GAbig': fr(7, enc(2 ** 31, 8)), 'MPbig': fr(0x0d, enc(16384, 4)),
+        'PPbig': fr(5, enc(2 ** 20, 4) + TRL), 'GA4007': enc(7, 2) + b'\x01\x04', 'D4000': enc(0, 2) + b'\x03xyz', 'D8000': enc(0, 4) + enc(2, 2) + b'pq',
         'H206': fr(6, b''), 'H208': fr(8, b'\x01\x02\x03\x04'), 'H209': fr(9, b'\x00'),
         'Hbig': fr(1, big_headers(role, first_headers, 200)), 'Hbig16k': fr(1, big_headers(role, first_headers, 16384)),
     }
+
+
+# HEADERS frames with a 0- / 2-byte block: only where the block is never decoded (after the trailers), or - the 2-byte
+# block is an empty field section - as trailers
+SHORT_H = {'H0': frame(1, b''), 'H2': frame(1, b'\x00\x00')}
+ERR_ARM_SEQS = [('H', 'H', 'H0'), ('H', 'H', 'H2'), ('H', 'Dn', 'H', 'H2'), ('H', 'H2'), ('H', 'Dn', 'H2'), ('H', 'H2', 'H0'), ('H', 'H2', 'Dn'),
+                ('H', 'H', 'D0'), ('H', 'H', 'Dn'), ('H', 'H', 'CPbig'), ('H', 'H', 'GAbig'), ('H', 'H', 'SE'), ('H', 'H', 'PPbig'), ('H', 'H', 'MPbig'),
+                ('H', 'H', 'D64'), ('H', 'H', 'GA4007'), ('H', 'H', 'D4000'), ('H', 'H', 'Hbig'), ('H', 'H', 'H'), ('H', 'H', 'U0', 'H2'),
+                ('D0',), ('D4000',), ('D64',), ('CPbig',), ('GAbig',), ('MPbig',), ('PPbig',), ('GA4007',), ('SE6',), ('SE6b',)]
 
 
 def ext_seq_bytes(role, seq):
     out, seen_h = [], False
     for n in seq:
         base = letters(role, not seen_h)
-        l = base[n] if n in base else ext_letters(role, not seen_h)[n]
+        l = SHORT_H[n] if n in SHORT_H else base[n] if n in base else ext_letters(role, not seen_h)[n]
         out.append(l)
         if n in ('H', 'Hbig', 'Hbig16k'):
             seen_h = True
@@ -191,8 +203,12 @@ class P(Property):
             'server::Connection (accept, resolve_request, recv_data, recv_trailers) and client::Connection (send_request, '
             'recv_response, recv_data, recv_trailers) over SimQuic, one API poll per `p`; for sequences of up to 3 frames also with '
             'the application calling split() after the head or after the first piece of body and reading the receive half; '
-            'plus 20 further letters (unknown types 0x0e/0x0c/0x40/0x89/0xf0700/8-byte grease, HTTP/2 types 6/8/9, unknown, DATA '
-            'and HEADERS payloads of 63/64/16383/16384 bytes, non-minimal 4/8-byte length varints) at 7 positions, and runs of '
+            'plus 35 further letters (unknown types 0x0e/0x0c/0x40/0x89/0xf0700/8-byte grease, HTTP/2 types 6/8/9, unknown, DATA '
+            'and HEADERS payloads of 63/64/16383/16384 bytes, non-minimal 4/8-byte length varints, SETTINGS with valid / reserved / '
+            'cut contents, mis-sized and large-id CANCEL_PUSH/GOAWAY/MAX_PUSH_ID/PUSH_PROMISE, known types in 2/4-byte type '
+            'varints) at 7 positions; 0- and 2-byte HEADERS blocks and odd frames behind the trailers (error arms); every proper '
+            'prefix of every sequence of <= 2 frames (and 3 starting with HEADERS) cut by FIN known before / after the reads; the '
+            'stream failing with Unknown / the connection with Undefined / Internal / Timeout / peer close; and runs of '
             '17..100 (thorough 300) unknown / zero-length DATA / DATA / mixed frames before, inside and after the message. non-trivial = distinct cases in which '
             'the implementation delivered a header section or raised an error')
 
@@ -203,6 +219,7 @@ class P(Property):
         out = re.sub(r'head:%s[0-9a-f]*' % REQ.hex(), 'head:REQ', out)
         out = re.sub(r'head:%s[0-9a-f]*' % RESP.hex(), 'head:RESP', out)
         out = re.sub(r'trailers:000023782d74[0-9a-f]*', 'trailers:T', out)
+        out = out.replace('trailers:0000 ', 'trailers:EMPTY ').replace('trailers:?{} ', 'trailers:EMPTY ')
         acts = case.split()[2].split(',') if len(case.split()) > 2 else []
         if any(a[0] in 'XIT' for a in acts):
             # when the transport itself fails, whether and how the connection driver closes is its own reaction (C05)
@@ -269,6 +286,26 @@ class P(Property):
                     out.append(per_frame(role, fr, 'F'))
                     out.append(random_split(rng, role, fr, 'F'))
                     out.append(batch(role + '+split', fr, 'F', extra=k + 4))
+            # the error arms (they format the offending frame): short and odd HEADERS / DATA / ids behind the trailers etc.
+            for seq in ERR_ARM_SEQS:
+                fr = ext_seq_bytes(role, seq)
+                for e in ('F', ''):
+                    out.append(batch(role, fr, e))
+                    out.append(per_frame(role, fr, e))
+                out.append(random_split(rng, role, fr, 'F'))
+                out.append(batch(role + '+split', fr, 'F'))
+            # `cut`: every proper prefix of the bytes of every sequence of up to 2 frames (and of 3 starting with HEADERS),
+            # then FIN - known before anything is read, or only after everything was read
+            for k in (1, 2, 3):
+                for seq in itertools.product(NAMES, repeat=k):
+                    if k == 3 and (seq[0] != 'H' or (tier == 'quick' and seq[1] not in ('H', 'Dn', 'D0', 'Un'))):
+                        continue
+                    flat = b''.join(seq_bytes(role, seq))
+                    for cut in range(1, len(flat)):
+                        pre = flat[:cut].hex()
+                        out.append('rq %s c%s,F,%s' % (role, pre, ','.join(['p'] * (k + 4))))
+                        if cut % 2 == 1 or k < 3:
+                            out.append('rq %s c%s,%s,F,p,p,p' % (role, pre, ','.join(['p'] * (k + 3))))
             # a WebTransport stream header is outside the property (the outcome is `outofscope`): model = implementation only
             for pre in ((), ('H',), ('H', 'Dn')):
                 fr = seq_bytes(role, pre) + [bytes.fromhex('404100'), b'raw']
